@@ -103,6 +103,8 @@ func GenMain(args []string) int {
 			p.MultiSingl = true
 		case "mangle":
 			p.Mangle = true
+		case "capture":
+			p.Capture = true
 		}
 	}
 	f, ok := Families[args[0]]
